@@ -1612,11 +1612,16 @@ HttpHeaderEntry::parse(const char *field_start, const char *field_end, const htt
         theName = Http::HeaderLookupTable.lookup(id).name;
 
     /* trim field value: RFC 9110 section 5.5 allows only OWS (SP and HTAB) around it;
-     * other isspace() characters (VT, FF) are part of an (invalid) value */
-    while (value_start < field_end && (*value_start == ' ' || *value_start == '\t'))
+     * other isspace() characters (VT, FF) are part of an (invalid) value.
+     * CR and LF can only be here as parts of an obs-fold (our caller rejects or
+     * replaces bare CRs and splits lines at LFs). RFC 9112 section 5.2 has them
+     * replaced with SP before the value is interpreted, so they are trimmed, too:
+     * a value must never start or end with a line terminator. */
+    const auto trimmable = [](const char c) { return c == ' ' || c == '\t' || c == '\r' || c == '\n'; };
+    while (value_start < field_end && trimmable(*value_start))
         ++value_start;
 
-    while (value_start < field_end && (field_end[-1] == ' ' || field_end[-1] == '\t'))
+    while (value_start < field_end && trimmable(field_end[-1]))
         --field_end;
 
     if (field_end - value_start > 65534) {
